@@ -85,3 +85,40 @@ Check (C20_oob_layout : forall s e len nbins oob arr, s < e -> 0 < nbins <= e - 
                       then out_of_fl oob else nth (Z.to_nat k) arr ONaN)
             (seqZ 0 (Z.to_nat nbins)))).
 End PinC20.
+
+(* binary64 sums on the generator's domain *)
+From BT Require Base.Float Model.PyArraysIeee Proofs.FloatExact Proofs.PyArraysIeee.
+Module PinC20Ieee.
+Import Model.PyArrays Base.Float Model.PyArraysIeee Proofs.FloatExact Proofs.PyArraysIeee Properties.C20.
+Local Open Scope Z_scope.
+Check (C20_sums_exact_in_domain : forall l : list (Z * Z), py_in_domain l = true ->
+  (forall E (v64 : Z -> Float.fl), E <= -3 -> (forall t, In t l -> gval E (-3) (v64 (snd t)) (snd t)) ->
+     gval E (-3) (py_sum_ieee ieee (lift v64 l)) (py_sum_exact l))
+  /\ py_sum_ieee ieee (lift f8 l) = f8 (py_sum_exact l)
+  /\ py_mean_ieee ieee (lift f8 l) = fdiv64 ieee (f8 (py_sum_exact l)) (f_of_Z (py_count l))
+  /\ Z.abs (py_sum_exact l) <= 8192 * 2 ^ 24).
+Check (C20_bin_mean_ieee : forall (is_ ie : wval -> Z) bs be iv r missing m64,
+  let items := iv :: r in
+  let l := wig_contribs is_ ie bs be items in
+  py_in_domain l = true ->
+  (exists d, foldM (fun d iv => wig_upd Mean (is_ iv) (ie iv) (w_val iv) bs be d) items None = Ok d
+             /\ wig_fin Mean missing d = fdiv (FV (py_sum_exact l)) (py_count l))
+  /\ wig_mean_fin64 ieee m64
+       (fold_left (fun d iv => wig_mean_upd64 ieee (is_ iv) (ie iv) (f8 (w_val iv)) bs be d) items None)
+     = fdiv64 ieee (f8 (py_sum_exact l)) (f_of_Z (py_count l))).
+Check (C20_entry_sums_exact_in_domain : forall cells : list PyArrays.fl, py_cells_in_domain cells = true ->
+  (forall E x y, E <= -3 -> cell_rel E x y -> cell_z x + 8 < 2 ^ 53 ->
+     cell_rel E (PyArrays.fadd (PyArrays.fmax x (FV 0)) (FV 8)) (bed_cell_upd64 ieee y))
+  /\ (forall E ys, E <= -3 -> Forall2 (cell_rel E) cells ys -> gval E (-3) (bed_sum64 ieee ys) (bed_sum_exact cells))
+  /\ fsum0 cells = FV (bed_sum_exact cells)
+  /\ bed_sum64 ieee (map c64 cells) = f8 (bed_sum_exact cells)
+  /\ (forall missing m64 cov, existsb (fun c => 0 <? c) cov = true ->
+        bed_fin Mean missing (cov, cells) = fdiv (FV (bed_sum_exact cells)) (fold_left Z.add cov 0)
+        /\ bed_mean64 ieee m64 cov (map c64 cells) = fdiv64 ieee (f8 (bed_sum_exact cells)) (f_of_Z (fold_left Z.add cov 0)))).
+(* the vocabulary of those statements *)
+Check (eq_refl : gval = fun E G x k => BwSummary.fin_ge E x /\ BwSummary.fval E x = k * 2 ^ (G - E)).
+Check (eq_refl : f8 = fun z => if z =? 0 then fzero else FFin z (-3)).
+Check (eq_refl : py_sum_ieee = fun fp l => fold_left (fun a t => fadd64 fp a (fmul64 fp (f_of_Z (fst t)) (snd t))) l fzero).
+Check (eq_refl : py_sum_exact = fun l => fold_left (fun a t => a + fst t * snd t) l 0).
+Check (eq_refl : bed_sum64 = fun fp cells => fold_left (fadd64 fp) (map (fun x => Float.fmax x fzero) cells) fzero).
+End PinC20Ieee.
